@@ -691,6 +691,9 @@ def check_polygon(case, ctx):
     band = 1e-7 * R + 1e-12 * half
     msg = compare_mask(ctx, m, mg < 0, mg, band, 'regular_polygon', 'regular_polygon(sides=%d, radius=%g, center=%r, rotation=%g)' % (sides, R, c, rot))
     ctx.require(msg is None, 'regular_polygon:membership', msg or '')
+    # the coordinates may also be given as the two 1-D axes of the grid (documented: "2D or 1D")
+    m1d = ctx.call(G.regular_polygon, sides, R, np.ascontiguousarray(x[0, :]), np.ascontiguousarray(y[:, 0]), center=c, rotation=rot)
+    U.check_equal(np.asarray(m1d), np.asarray(m), 'regular_polygon:1d-coordinates', 'mask from 1-D x, y differs from the mask on the 2-D grid')
     # vertex 0 at (0, +radius) for rotation 0: the topmost point of the analytic shape is at distance R above the centre
     R2 = R * (1 + case['grow'])
     m2 = ctx.call(G.regular_polygon, sides, R2, x, y, center=c, rotation=rot)
